@@ -35,63 +35,191 @@ func lastSel(e ast.Expr) string {
 	return ""
 }
 
+// substExpr replaces the identifiers of env (a helper's parameters) by the caller's argument expressions
+func substExpr(e ast.Expr, env map[string]ast.Expr) ast.Expr {
+	switch x := e.(type) {
+	case *ast.Ident:
+		if r, ok := env[x.Name]; ok {
+			return r
+		}
+		return x
+	case *ast.CallExpr:
+		c := *x
+		c.Fun = substExpr(x.Fun, env)
+		c.Args = nil
+		for _, a := range x.Args {
+			c.Args = append(c.Args, substExpr(a, env))
+		}
+		return &c
+	case *ast.SelectorExpr:
+		c := *x
+		c.X = substExpr(x.X, env)
+		return &c
+	case *ast.ParenExpr:
+		return substExpr(x.X, env)
+	case *ast.UnaryExpr:
+		c := *x
+		c.X = substExpr(x.X, env)
+		return &c
+	case *ast.StarExpr:
+		if id, ok := x.X.(*ast.Ident); ok {
+			if r, ok := env["*"+id.Name]; ok {
+				return r
+			}
+		}
+		c := *x
+		c.X = substExpr(x.X, env)
+		return &c
+	case *ast.IndexExpr:
+		c := *x
+		c.X = substExpr(x.X, env)
+		c.Index = substExpr(x.Index, env)
+		return &c
+	case *ast.BinaryExpr:
+		c := *x
+		c.X = substExpr(x.X, env)
+		c.Y = substExpr(x.Y, env)
+		return &c
+	}
+	return e
+}
+
+// stripConv removes integer conversions: int64(x), uint64(x), uint32(x) ... -> x
+func stripConv(e ast.Expr) ast.Expr {
+	for {
+		c, ok := e.(*ast.CallExpr)
+		if !ok || len(c.Args) != 1 {
+			return e
+		}
+		switch exprString(c.Fun) {
+		case "int64", "uint64", "int", "uint", "uint32", "int32", "uint16", "uint8":
+			e = c.Args[0]
+		default:
+			return e
+		}
+	}
+}
+
+type pieceWalker struct {
+	f         *ast.File
+	out       []string
+	pendingIP string
+	depth     int
+}
+
+func (w *pieceWalker) helper(name string) *ast.FuncDecl {
+	for _, d := range w.f.Decls {
+		if fd, ok := d.(*ast.FuncDecl); ok && fd.Name.Name == name && fd.Body != nil {
+			return fd
+		}
+	}
+	return nil
+}
+
+func (w *pieceWalker) stmts(list []ast.Stmt, env map[string]ast.Expr) {
+	for _, st := range list {
+		es, ok := st.(*ast.ExprStmt)
+		if !ok {
+			if as, ok := st.(*ast.AssignStmt); ok {
+				t := exprString(as)
+				if t == "ip := make(net.IP, 4)" {
+					continue
+				}
+				// a local alias of (part of) the message: h := &m.Header / h := m.Header (fields are named by their last selector)
+				if len(as.Lhs) == 1 && len(as.Rhs) == 1 && as.Tok.String() == ":=" {
+					r := as.Rhs[0]
+					if u, ok := r.(*ast.UnaryExpr); ok && u.Op.String() == "&" {
+						r = u.X
+					}
+					if _, ok := r.(*ast.SelectorExpr); ok {
+						continue
+					}
+				}
+			}
+			w.out = append(w.out, "POpaque "+coqStr(exprString(st)))
+			continue
+		}
+		call, ok := es.X.(*ast.CallExpr)
+		if !ok {
+			w.out = append(w.out, "POpaque "+coqStr(exprString(st)))
+			continue
+		}
+		if env != nil {
+			call = substExpr(call, env).(*ast.CallExpr)
+		}
+		fun := exprString(call.Fun)
+		switch {
+		case fun == "b.WriteString" && len(call.Args) == 1:
+			a := call.Args[0]
+			if s, ok := strLit(a); ok {
+				w.out = append(w.out, "PLit "+coqStr(s))
+			} else if c, ok := a.(*ast.CallExpr); ok && (exprString(c.Fun) == "strconv.FormatInt" || exprString(c.Fun) == "strconv.FormatUint") && len(c.Args) == 2 && exprString(c.Args[1]) == "10" {
+				// FormatInt(int64(x.F), 10) / FormatUint(uint64(x.F), 10): the decimal digits of a field
+				if conv, ok := c.Args[0].(*ast.CallExpr); ok && len(conv.Args) == 1 && lastSel(stripConv(conv)) != "" &&
+					((exprString(c.Fun) == "strconv.FormatInt" && exprString(conv.Fun) == "int64") || (exprString(c.Fun) == "strconv.FormatUint" && exprString(conv.Fun) == "uint64")) {
+					w.out = append(w.out, "PNum "+coqStr(lastSel(stripConv(conv))))
+				} else {
+					w.out = append(w.out, "POpaque "+coqStr(exprString(a)))
+				}
+			} else if exprString(a) == "ip.String()" && w.pendingIP != "" {
+				w.out = append(w.out, "PIP4 "+coqStr(w.pendingIP))
+				w.pendingIP = ""
+			} else if lastSel(a) != "" {
+				w.out = append(w.out, "PStr "+coqStr(lastSel(a)))
+			} else {
+				w.out = append(w.out, "POpaque "+coqStr(exprString(a)))
+			}
+		case fun == "b.WriteByte" && len(call.Args) == 1:
+			if bl, ok := call.Args[0].(*ast.BasicLit); ok {
+				if r, _, _, err := strconv.UnquoteChar(bl.Value[1:len(bl.Value)-1], '\''); err == nil {
+					w.out = append(w.out, "PLit "+coqStr(string(r)))
+					continue
+				}
+			}
+			w.out = append(w.out, "POpaque "+coqStr(exprString(st)))
+		case fun == "binary.BigEndian.PutUint32" && len(call.Args) == 2 && exprString(call.Args[0]) == "ip" && lastSel(call.Args[1]) != "":
+			w.pendingIP = lastSel(call.Args[1])
+		default:
+			// a small helper of the same file that takes the buffer first (writeUint(b, x), writeQuoted(b, s) ...): its body, with the
+			// parameters replaced by the arguments, is read in place
+			if id, ok := call.Fun.(*ast.Ident); ok && w.depth < 3 && len(call.Args) >= 1 && exprString(call.Args[0]) == "b" {
+				if fd := w.helper(id.Name); fd != nil && fd.Recv == nil && fd.Type.Params != nil {
+					var names []string
+					for _, fl := range fd.Type.Params.List {
+						for _, n := range fl.Names {
+							names = append(names, n.Name)
+						}
+					}
+					if len(names) == len(call.Args) {
+						env2 := map[string]ast.Expr{}
+						for i, n := range names {
+							if i == 0 {
+								env2[n] = ast.NewIdent("b")
+							} else {
+								env2[n] = call.Args[i]
+							}
+						}
+						w.depth++
+						w.stmts(fd.Body.List, env2)
+						w.depth--
+						continue
+					}
+				}
+			}
+			w.out = append(w.out, "POpaque "+coqStr(exprString(st)))
+		}
+	}
+}
+
 func extractPieces(f *ast.File, fn string) []string {
 	for _, d := range f.Decls {
 		fd, ok := d.(*ast.FuncDecl)
 		if !ok || fd.Name.Name != fn {
 			continue
 		}
-		var out []string
-		pendingIP := ""
-		for _, st := range fd.Body.List {
-			es, ok := st.(*ast.ExprStmt)
-			if !ok {
-				if as, ok := st.(*ast.AssignStmt); ok && exprString(as) == "ip := make(net.IP, 4)" {
-					continue
-				}
-				out = append(out, "POpaque "+coqStr(exprString(st)))
-				continue
-			}
-			call, ok := es.X.(*ast.CallExpr)
-			if !ok {
-				out = append(out, "POpaque "+coqStr(exprString(st)))
-				continue
-			}
-			fun := exprString(call.Fun)
-			switch {
-			case fun == "b.WriteString" && len(call.Args) == 1:
-				a := call.Args[0]
-				if s, ok := strLit(a); ok {
-					out = append(out, "PLit "+coqStr(s))
-				} else if c, ok := a.(*ast.CallExpr); ok && exprString(c.Fun) == "strconv.FormatInt" && len(c.Args) == 2 && exprString(c.Args[1]) == "10" {
-					if conv, ok := c.Args[0].(*ast.CallExpr); ok && exprString(conv.Fun) == "int64" && len(conv.Args) == 1 && lastSel(conv.Args[0]) != "" {
-						out = append(out, "PNum "+coqStr(lastSel(conv.Args[0])))
-					} else {
-						out = append(out, "POpaque "+coqStr(exprString(a)))
-					}
-				} else if exprString(a) == "ip.String()" && pendingIP != "" {
-					out = append(out, "PIP4 "+coqStr(pendingIP))
-					pendingIP = ""
-				} else if lastSel(a) != "" {
-					out = append(out, "PStr "+coqStr(lastSel(a)))
-				} else {
-					out = append(out, "POpaque "+coqStr(exprString(a)))
-				}
-			case fun == "b.WriteByte" && len(call.Args) == 1:
-				if bl, ok := call.Args[0].(*ast.BasicLit); ok {
-					if r, _, _, err := strconv.UnquoteChar(bl.Value[1:len(bl.Value)-1], '\''); err == nil {
-						out = append(out, "PLit "+coqStr(string(r)))
-						continue
-					}
-				}
-				out = append(out, "POpaque "+coqStr(exprString(st)))
-			case fun == "binary.BigEndian.PutUint32" && len(call.Args) == 2 && exprString(call.Args[0]) == "ip" && lastSel(call.Args[1]) != "":
-				pendingIP = lastSel(call.Args[1])
-			default:
-				out = append(out, "POpaque "+coqStr(exprString(st)))
-			}
-		}
-		return out
+		w := &pieceWalker{f: f}
+		w.stmts(fd.Body.List, nil)
+		return w.out
 	}
 	return nil
 }
